@@ -63,7 +63,9 @@ func siteBlock(host string, port int, root, gz string) string {
 // ------------------------------------------------------------------- cases
 
 // Accept-Encoding alphabet. "-" = header absent.
-var acceptEncodings = []string{"-", "gzip", "gzip, br", "zstd, gzip", "br", "identity", "*", "x-gzip", "gzip;q=0", "zstd", "br;q=0, gzip", "identity, gzip;q=0", "zstd;q=0, br;q=0"}
+var acceptEncodings = []string{"-", "gzip", "gzip, br", "zstd, gzip", "br", "identity", "*", "x-gzip", "gzip;q=0", "zstd", "br;q=0, gzip", "identity, gzip;q=0", "zstd;q=0, br;q=0",
+	// a wildcard beside an explicit refusal of gzip: the refusal stands
+	"gzip;q=0, *", "*, gzip;q=0", "br;q=1.0, gzip;q=0, *;q=0.1"}
 
 const (
 	aeOffered    = iota // a gzip token with non-zero weight
